@@ -395,3 +395,70 @@ def dominated_by_variant(body, bb, adt_suffix, variant):
     if not cut:
         return False
     return bb not in body.reachable_edges(0, cut)
+
+
+EMPTY_PRODUCERS = ("std::path::PathBuf::new", "alloc::string::String::new", "std::ffi::os_str::OsString::new",
+                   "std::ffi::OsString::new")
+PATH_APPEND = ("std::path::Path::join", "std::path::PathBuf::push")
+
+
+def may_empty_appends(body):
+    """Forward may-analysis: locals that may still hold the empty path/string produced by PathBuf::new() / String::new()
+    (through moves, copies and plain references); returns [(bb, term)] of Path::join / PathBuf::push calls whose appended
+    argument may be empty on some path - `p.join("")` yields `p/`, a different spelling of the same file."""
+    n = body.n
+    IN = [None] * n
+    IN[0] = frozenset()
+    work = [0]
+
+    def transfer(bb, state):
+        st = set(state)
+        for s in body.stmts(bb):
+            d = s["d"]
+            if not isinstance(d, int):
+                continue
+            rv = s["rv"]
+            src = None
+            if rv["k"] == "use":
+                src = op_place(rv["ops"][0])
+            elif rv["k"] == "ref":
+                src = rv["p"]
+            if src is not None and isinstance(src, int) and src in st:
+                st.add(d)
+            elif src is not None and not isinstance(src, int) and place_proj(src) == ["*"] and place_local(src) in st:
+                st.add(d)
+            else:
+                st.discard(d)
+        return st
+
+    outs = {}
+    while work:
+        bb = work.pop()
+        st = transfer(bb, IN[bb])
+        t = body.term(bb)
+        if t["k"] == "call" and isinstance(t.get("dest"), int):
+            if t["fn"] in EMPTY_PRODUCERS:
+                st.add(t["dest"])
+            elif t["fn"].endswith("Deref>::deref") or t["fn"].endswith("::as_path") or t["fn"].endswith("AsRef<std::path::Path>>::as_ref") \
+                    or t["fn"].endswith("Clone>::clone"):
+                a = op_place(t["args"][0]) if t["args"] else None
+                if a is not None and place_local(a) in st:
+                    st.add(t["dest"])
+                else:
+                    st.discard(t["dest"])
+            else:
+                st.discard(t["dest"])
+        outs[bb] = st
+        for s in body.succs(bb):
+            new = frozenset(st) if IN[s] is None else IN[s] | frozenset(st)
+            if new != IN[s]:
+                IN[s] = new
+                work.append(s)
+    hits = []
+    for bb, t in body.calls():
+        if t["fn"] in PATH_APPEND and IN[bb] is not None and len(t["args"]) >= 2:
+            st = transfer(bb, IN[bb])
+            a = op_place(t["args"][1])
+            if a is not None and place_local(a) in st:
+                hits.append((bb, t))
+    return hits
